@@ -37,7 +37,7 @@ InMinute(m, p) == InExt(PrevClose(m), Raw(m), p)
 Without(f, o) == [x \in DOMAIN f \ {o} |-> f[x]]
 With(f, o, r) == (o :> r) @@ f
 Empty == <<>>
-NoL == [on |-> FALSE, cnt |-> 0, qty |-> 0, should |-> FALSE, mustnot |-> FALSE, sub |-> 0, exe |-> 0, wal |-> 0,
+NoL == [on |-> FALSE, seen |-> FALSE, cnt |-> 0, qty |-> 0, should |-> FALSE, mustnot |-> FALSE, sub |-> 0, exe |-> 0, wal |-> 0,
         entry |-> 0, side |-> "none", subs |-> 0, bank |-> 0]
 
 Init == /\ tid \in 1..Len(Traces) /\ l = 1 /\ verdict = "ok" /\ ph = "none" /\ ci = 0 /\ cn = 0 /\ lastPos = 0
@@ -46,6 +46,8 @@ Init == /\ tid \in 1..Len(Traces) /\ l = 1 /\ verdict = "ok" /\ ph = "none" /\ c
 \* ---------------- oracles ----------------
 Cur == Fixed(ci)
 Reach(o) == FirstReach(Cur, Max2(lastPos, A[o].born), A[o].p)
+ReachM(o) == FirstReach(Cur, Max2(lastPos, M[o].born), M[o].p)
+HookMarkets == {o \in DOMAIN M : M[o].hook}
 MissedStep == {o \in DOMAIN A : Reach(o) # NoReach}
 \* fast mode, minute form
 ChunkMins == ci..(ci + cn - 1)
@@ -98,13 +100,16 @@ Submit ==
                           ELSE IF E.q8 # Abs(L.qty) THEN "liq:closing-order-not-for-the-whole-position"
                           ELSE IF ~BankOK(E.pu, L.entry, L.side) THEN "liq:closing-order-not-at-the-bankruptcy-price"
                           ELSE "ok"
-            /\ M' = With(M, E.oid, [p |-> E.p, q |-> E.qh, liq |-> TRUE])
+            /\ M' = With(M, E.oid, [p |-> E.p, q |-> E.qh, liq |-> TRUE, hook |-> FALSE, born |-> 0, bmin |-> 0])
             /\ UNCHANGED <<A>>
        ELSE /\ verdict' = IF On("market") /\ E.p # E.cur
                           THEN "market:price-is-not-the-current-price-at-submission" \o
                                (IF NearDeclared THEN ":reduce-only-exit-declared-within-0.015%-of-the-current-price" ELSE "")
                           ELSE "ok"
-            /\ M' = With(M, E.oid, [p |-> E.p, q |-> E.qh, liq |-> FALSE])
+            \* hook: created by a strategy hook inside a fill while a candle is being matched - the order is
+            \* ACTIVE at the current price, i.e. at the point of the path where the fill happened
+            /\ M' = With(M, E.oid, [p |-> E.p, q |-> E.qh, liq |-> FALSE, hook |-> ph # "none", born |-> lastPos,
+                                    bmin |-> IF ph = "chunk" THEN E.t ELSE 0])
             /\ UNCHANGED <<A, L>>
   ELSE /\ A' = With(A, E.oid, [p |-> E.p, q |-> E.qh,
                                born |-> IF L.on THEN NoReach ELSE IF ph = "minute" THEN lastPos ELSE 0,
@@ -121,6 +126,9 @@ FillResting ==
                         THEN (IF On("fill") \/ On("path") THEN "fill:" \o H.mode \o ":filled-although-the-path-ahead-does-not-reach-its-price" ELSE "ok")
                         ELSE IF \E j \in DOMAIN A : j # o /\ Reach(j) < r
                         THEN (IF On("fill") \/ On("path") THEN "path:" \o H.mode \o ":filled-before-an-order-the-path-reaches-earlier" ELSE "ok")
+                        ELSE IF \E j \in HookMarkets : ReachM(j) < r
+                        THEN (IF On("fill") \/ On("path") \/ On("market")
+                              THEN "path:" \o H.mode \o ":filled-while-a-market-order-created-inside-an-earlier-fill-was-still-pending" ELSE "ok")
                         ELSE IF On("fill") /\ (E.p # a.p \/ E.qh # a.q) THEN "fill:not-at-its-own-price-and-quantity"
                         ELSE IF On("fill") /\ E.dq8 # 99999 /\ E.dq8 # E.sq8 THEN "fill:position-did-not-change-by-the-order-quantity"
                         ELSE "ok"
@@ -143,7 +151,8 @@ FillMarket ==
                 ELSE IF On("market") /\ (E.p # m.p \/ E.qh # m.q) THEN "market:not-at-the-price-and-quantity-it-was-submitted-with"
                 ELSE "ok"
   /\ L' = IF m.liq THEN [L EXCEPT !.exe = o] ELSE L
-  /\ UNCHANGED <<A, D, lastPos>>
+  /\ lastPos' = IF ph = "minute" /\ m.hook /\ ReachM(o) # NoReach THEN ReachM(o) ELSE lastPos
+  /\ UNCHANGED <<A, D>>
 Exec ==
   IF E.pre = "ACTIVE" /\ E.post = "EXECUTED"
   THEN IF E.oid \in DOMAIN A THEN FillResting
@@ -162,14 +171,23 @@ Cancel ==
   /\ verdict' = "ok" /\ UNCHANGED <<L, lastPos>>
 
 PendingMarket == {o \in DOMAIN M : ~M[o].liq}
+\* outside the matching of a candle a pending market order is only owed the flush before the next candle
+Unhook == [o \in DOMAIN M |-> [M[o] EXCEPT !.hook = FALSE]]
 BeginCandle == IF On("market") /\ PendingMarket # {} THEN "market:not-executed-before-the-next-candle-was-processed"
                ELSE IF ph # "none" THEN "machinery:nested-candle-events" ELSE "ok"
 Minute == /\ verdict' = BeginCandle /\ ph' = "minute" /\ ci' = E.i /\ cn' = 1 /\ lastPos' = 0
           /\ A' = [o \in DOMAIN A |-> [A[o] EXCEPT !.born = 0]] /\ D' = Empty
-MinuteEnd == /\ verdict' = StepVerdict /\ ph' = "none" /\ UNCHANGED <<ci, cn, lastPos, A, D>>
+\* C09 at the end of a candle whose liquidation check was not run at all (no liqcheck event): the position
+\* after matching is the one logged with minute_end / chunk_end
+EndLiqVerdict(rlo, rhi) ==
+  IF On("liq") /\ ~L.seen /\ E.haspos /\ H.levmode = "isolated" /\ E.q8 # 0 /\ E.liq # 0 /\ rlo <= E.liq /\ E.liq <= rhi
+  THEN "liq:not-liquidated-although-the-range-contains-the-liquidation-price" ELSE "ok"
+First2(a, b) == IF a # "ok" THEN a ELSE b
+MinuteEnd == /\ verdict' = First2(StepVerdict, EndLiqVerdict(Raw(ci).l, Raw(ci).h)) /\ ph' = "none" /\ UNCHANGED <<ci, cn, lastPos, A, D>>
 Chunk == /\ verdict' = BeginCandle /\ ph' = "chunk" /\ ci' = E.i /\ cn' = E.n /\ lastPos' = 0 /\ D' = Empty
          /\ A' = [o \in DOMAIN A |-> [A[o] EXCEPT !.born = 0]]
-ChunkEnd == /\ verdict' = ChunkVerdict /\ ph' = "none" /\ UNCHANGED <<ci, cn, lastPos, A, D>>
+ChunkEnd == /\ verdict' = First2(ChunkVerdict, EndLiqVerdict(MinL([m \in 1..cn |-> Raw(ci + m - 1)]), MaxH([m \in 1..cn |-> Raw(ci + m - 1)])))
+            /\ ph' = "none" /\ UNCHANGED <<ci, cn, lastPos, A, D>>
 
 \* C09.  raw range -> must liquidate; outside the range extended to the previous close -> must not;
 \* in between (liquidation price only inside the close->open gap) the statement is silent: skipped, counted
@@ -185,7 +203,7 @@ LiqCheck ==
       inExt == hasLiq /\ RangeLoExt <= E.liq /\ E.liq <= RangeHiExt
       should == iso /\ open /\ inRaw
       mustnot == ~(iso /\ open /\ inExt)
-  IN /\ L' = [on |-> TRUE, cnt |-> E.count, qty |-> E.q8, should |-> should, mustnot |-> mustnot, sub |-> 0, exe |-> 0,
+  IN /\ L' = [on |-> TRUE, seen |-> TRUE, cnt |-> E.count, qty |-> E.q8, should |-> should, mustnot |-> mustnot, sub |-> 0, exe |-> 0,
               wal |-> E.wal, entry |-> E.entry, side |-> IF E.q8 > 0 THEN "long" ELSE IF E.q8 < 0 THEN "short" ELSE "none",
               subs |-> 0, bank |-> 0]
      /\ skips' = skips + (IF ~should /\ ~mustnot THEN 1 ELSE 0)
@@ -195,7 +213,7 @@ LiqCheck ==
                    ELSE IF ph = "minute" THEN StepVerdict ELSE ChunkVerdict      \* matching is over: nothing missed
 LiqCheckEnd ==
   LET did == E.count # L.cnt IN
-  /\ L' = [NoL EXCEPT !.cnt = E.count]
+  /\ L' = [NoL EXCEPT !.cnt = E.count, !.seen = TRUE]
   /\ verdict' =
        IF ~On("liq") THEN "ok"
        ELSE IF L.should /\ ~did THEN "liq:not-liquidated-although-the-range-contains-the-liquidation-price"
@@ -218,10 +236,10 @@ Step ==
   /\ CASE E.k = "submit" -> Submit /\ UNCHANGED <<ph, ci, cn, lastPos, D, skips>>
        [] E.k = "exec" -> Exec /\ UNCHANGED <<ph, ci, cn, skips>>
        [] E.k = "cancel" -> Cancel /\ UNCHANGED <<ph, ci, cn, skips>>
-       [] E.k = "minute" -> Minute /\ UNCHANGED <<M, L, skips>>
-       [] E.k = "minute_end" -> MinuteEnd /\ UNCHANGED <<M, L, skips>>
-       [] E.k = "chunk" -> Chunk /\ UNCHANGED <<M, L, skips>>
-       [] E.k = "chunk_end" -> ChunkEnd /\ UNCHANGED <<M, L, skips>>
+       [] E.k = "minute" -> Minute /\ M' = Unhook /\ L' = [L EXCEPT !.seen = FALSE] /\ UNCHANGED <<skips>>
+       [] E.k = "minute_end" -> MinuteEnd /\ M' = Unhook /\ UNCHANGED <<L, skips>>
+       [] E.k = "chunk" -> Chunk /\ M' = Unhook /\ L' = [L EXCEPT !.seen = FALSE] /\ UNCHANGED <<skips>>
+       [] E.k = "chunk_end" -> ChunkEnd /\ M' = Unhook /\ UNCHANGED <<L, skips>>
        [] E.k = "liqcheck" -> LiqCheck /\ UNCHANGED <<ph, ci, cn, lastPos, A, D, M>>
        [] E.k = "liqcheck_end" -> LiqCheckEnd /\ UNCHANGED <<ph, ci, cn, lastPos, A, D, M>>
        [] E.k = "end" -> /\ verdict' = IF On("market") /\ PendingMarket # {} THEN "market:never-executed" ELSE "ok"
